@@ -17,10 +17,14 @@ try:
     dst = os.path.join(tmp, "repo")
     shutil.copytree("/repo", dst, ignore=shutil.ignore_patterns(".git", "__pycache__", "docs", "bindist", "*.egg-info"))
     env = {**os.environ, "PYTHONPATH": dst}
+    if demo != "-":
+        # run a copy: the script's own directory is sys.path[0] and must not be the author's (patched) worktree
+        local_demo = os.path.join(tmp, "demo.py")
+        shutil.copy(demo, local_demo)
     def run_demo():
         if demo == "-":
             return None
-        r = subprocess.run(["/venv/bin/python", demo], cwd=tmp, env=env, capture_output=True, text=True, timeout=600)
+        r = subprocess.run(["/venv/bin/python", local_demo], cwd=tmp, env=env, capture_output=True, text=True, timeout=900)
         return r.returncode, (r.stdout + r.stderr).strip().splitlines()[-3:]
     before = run_demo()
     r = subprocess.run(["patch", "-p1", "-s", "-i", os.path.abspath(patch)], cwd=dst, capture_output=True, text=True)
@@ -34,7 +38,7 @@ try:
         r = subprocess.run(["/venv/bin/python", "-m", "pytest", "-q", "-p", "no:cacheprovider", "--timeout=900"], cwd=dst, env=env,
                            capture_output=True, text=True)
         print("repo tests with the change:", (r.stdout.strip().splitlines() or ["?"])[-1], f"({time.time()-t0:.0f}s)")
-    for prop in props.split(","):
+    for prop in ([] if props == "-" else props.split(",")):
         t0 = time.time()
         r = subprocess.run(["/verif/check", prop, "--repo", dst] + rest, capture_output=True, text=True)
         lines = [l for l in r.stdout.splitlines() if not l.startswith("KNOWN-FINDING")]
